@@ -29,7 +29,7 @@ SPEC = {
         'the implementation refuses nesting at depth == MaxDepth (depthIncr: d.depth >= d.maxdepth), i.e. MaxDepth = n admits n-1 nested containers; the oracle and the theorems use exactly this boundary (levels >= MaxDepth => error, levels < MaxDepth => no depth error)',
         'the wire models (hand written, tied by their own checks Wcbor/Wmsgpack/Wsimple/Wbinc and here by Coq cases on the interface{} / Raw / unknown-field paths) cover []byte input; the io.Reader transport, the typed path on real reflection, extension values and json are covered by the harness oracle only',
         'json: nextValueBytes is an iterative scanner without depth accounting: a skipped or Raw-captured json value nested beyond MaxDepth is accepted (no recursion, no stack growth); the oracle exempts exactly this path from "error beyond MaxDepth"',
-        'typed path: C14/Typed.v is a model of decodeValue over destination type trees (depthIncr in arrayStart/mapStart, none in kPtr, kInterface -> naked); it is not tied by Coq cases, only by the harness oracle on T{A []T; M map[string]T; P *T} and [][]...[]int',
+        're-entrant decoding (a hand-written Selfer whose CodecDecodeSelf calls d.MustDecode / d.Decode for its children; extensions) is not in C14/Typed.v (no custom-codec frames): the depth counter surviving re-entry is checked by the harness oracle only (paths selfer-reentry, selfer-reentry-e, ext-iface, ext-self)', 'typed path: C14/Typed.v is a model of decodeValue over destination type trees (depthIncr in arrayStart/mapStart, none in kPtr, kInterface -> naked); it is not tied by Coq cases, only by the harness oracle on T{A []T; M map[string]T; P *T} and [][]...[]int',
     ],
     'trusted_extra': ['modelled, not verified: decode.go decodeValue/kSlice/kMap/kStruct/kPtr/kInterface recursion structure (C14/Typed.v); the four wire models; stack bytes per frame, goroutine stack growth and the fatal-error path are runtime'],
     'harness_timeout': {'quick': 400, 'thorough': 1800},
@@ -42,7 +42,7 @@ def main(chk):
 
 MANIFEST = {
     'category': 'proof',
-    'technique': 'Coq: per format the recursion counter of the decode-into-interface{} model and of the skip/raw walker model is bounded by MaxDepth for every byte list, option vector and fuel (assembled by exact from the wire-layer lemmas), nesting to MaxDepth or beyond is an error; a model of the typed path (destination types as trees) with its own bound; vm_compute correspondence of the wire models on nested inputs around MaxDepth; API-level oracle on all five formats, eleven paths, every nesting unit, with 10^6-level inputs in 64 MB-stack subprocesses',
+    'technique': 'Coq: per format the recursion counter of the decode-into-interface{} model and of the skip/raw walker model is bounded by MaxDepth for every byte list, option vector and fuel (assembled by exact from the wire-layer lemmas), nesting to MaxDepth or beyond is an error; a model of the typed path (destination types as trees) with its own bound; vm_compute correspondence of the wire models on nested inputs around MaxDepth; API-level oracle on all five formats, thirteen paths, every nesting unit, with 10^6-level inputs in 64 MB-stack subprocesses',
     'text': 'PARTIAL. Proved (unbounded in input, options, fuel): C14_cbor/msgpack/simple/binc_bound (model recursion frames <= MaxDepth on the interface{} path and in the skip walker), C14_*_error (nesting >= MaxDepth => Err, never Ok), C14_typed_bound (typed path: frames <= 2*MaxDepth + static pointer/struct nesting of the destination type). What the model decides is the recursion DEPTH; bytes of stack per frame, stack growth and the fatal exit are runtime and only observed by the harness (64 MB stack cap, 10^6..3*10^6 levels on every path incl. io.Reader, typed destinations, Raw, unknown fields, extension values). json is covered by the harness only (its wire model is being written); its skip walker is iterative.',
     'note': 'Findings made by this check and repaired in /repo: F14-4 (cbor tag bound to an InterfaceExt recursed without depth accounting), F14-5 (SelfExt payloads decoded by side decoders that restarted the depth count). The boundary is depth == MaxDepth => error (MaxDepth=1 admits no container). Trusted: Coq kernel, the hand-written wire and typed models, the harness.',
 }
